@@ -113,7 +113,7 @@ func (g *gen) ownership(o *opJ) {
 	default:
 		lo := g.r.Intn(g.kgs)
 		o.Lo, o.Hi = lo, lo+1+g.r.Intn(g.kgs-lo)
-		o.Nb = hx.Pick(g.r, []string{"needs", "err", "slow-needs", "slow-err", "live", "live", "slow-live", "op", "op"})
+		o.Nb = hx.Pick(g.r, []string{"needs", "err", "slow-needs", "slow-err", "live", "live", "slow-live", "op", "op", "needs+late", "live+late", "op+late"})
 	}
 }
 
@@ -421,7 +421,7 @@ func (g *gen) rescale() {
 	id := g.ckpt(0)
 	g.add(opJ{Op: "drain", DB: 0})
 	g.add(opJ{Op: "crash", DB: 0})
-	nb := hx.Pick(g.r, []string{"op", "op", "live", "slow-op"})
+	nb := hx.Pick(g.r, []string{"op", "op", "live", "slow-op", "live+late", "op+late"})
 	split := 1 + g.r.Intn(g.kgs-1)
 	g.add(opJ{Op: "restore", ID: id, Lo: 0, Hi: split, Nb: nb})
 	a := g.ndb
@@ -500,6 +500,129 @@ func (g *gen) midCompaction() {
 	g.restoreAll(id, g.r.Bool())
 }
 
+// a memtable generation (or the active WAL buffer at a checkpoint) that holds nothing but deletes, right behind a generation
+// whose flush completes while the deletes are still unflushed; a checkpoint in that window; restore.
+func (g *gen) deleteOnly() {
+	var keys [][]int
+	for i := 0; i < 4+g.r.Intn(3); i++ {
+		k := []int{0, g.r.Intn(g.kgs), 97 + i}
+		keys = append(keys, k)
+		g.add(opJ{Op: "put", DB: 0, K: k, V: []int{48 + i}})
+	}
+	g.big(0) // rotation at the latest here: the flush of the puts parks at flush.begin
+	park := g.r.Intn(3)
+	for i := 0; i < park; i++ {
+		g.add(opJ{Op: "step", DB: 0, Task: "flush"})
+	}
+	// nothing but deletes from here on
+	nd := 1 + g.r.Intn(len(keys))
+	for i := 0; i < nd; i++ {
+		g.add(opJ{Op: "del", DB: 0, K: keys[i]})
+	}
+	early := g.r.Chance(1, 3)
+	var id uint64
+	if early { // the deletes are still in the active buffer when the checkpoint rotates the WAL
+		id = g.ckpt(0)
+	}
+	// the flush of the puts completes (Truncate) while the deletes are unflushed
+	g.add(opJ{Op: "step", DB: 0, Task: "flush"})
+	g.add(opJ{Op: "step", DB: 0, Task: "flush"})
+	g.add(opJ{Op: "step", DB: 0, Task: "flush"})
+	if !early {
+		id = g.ckpt(0)
+	}
+	g.finishCkpt(0, id)
+	if g.r.Bool() {
+		id2 := g.ckpt(0)
+		g.add(opJ{Op: "drain", DB: 0})
+		g.add(opJ{Op: "crash", DB: 0})
+		g.restoreAll(id2, false)
+	} else {
+		g.add(opJ{Op: "drain", DB: 0, N: g.r.Intn(4)})
+		g.add(opJ{Op: "crash", DB: 0})
+	}
+	g.restoreAll(id, g.r.Bool())
+}
+
+// overlapping saves: a list save parked inside the file commit while a second list save or a retention update is issued
+func (g *gen) raceSave() {
+	g.writes(0, 1+g.r.Intn(2))
+	id0 := g.ckpt(0)
+	g.add(opJ{Op: "drain", DB: 0})
+	g.writes(0, 1+g.r.Intn(2))
+	id1 := g.ckpt(0)
+	g.add(opJ{Op: "step", DB: 0, Task: "ckpt", ID: id1}) // WAL saved, now at the list save
+	if g.r.Bool() {
+		g.nextID++
+		id2 := g.nextID
+		g.ids = append(g.ids, id2)
+		g.add(opJ{Op: "race", DB: 0, ID: id1, ID2: id2})
+		g.add(opJ{Op: "drain", DB: 0})
+		g.add(opJ{Op: "crash", DB: 0})
+		g.restoreAll(id2, false)
+		g.restoreAll(id1, false)
+	} else {
+		f := 0
+		if g.r.Chance(2, 3) {
+			f = 1
+		}
+		g.add(opJ{Op: "race", DB: 0, ID: id1, IDs: []uint64{id1}, Fail: f}) // drops id0 while the save of id1 is committing
+		if g.r.Bool() {
+			g.add(opJ{Op: "gc"})
+		}
+		g.add(opJ{Op: "crash", DB: 0})
+		g.restoreAll(id0, false)
+		g.restoreAll(id1, false)
+	}
+}
+
+// scale-in 2 -> 1 in place: the surviving instance (more checkpoints, so a higher WAL number) is redeployed in its own
+// directory from the handles of both instances, its own handle first; it takes several checkpoints while the restored one is
+// still retained; then crash and restore of the restored checkpoint and of the new ones.
+func (g *gen) scaleInPlace() {
+	g.add(opJ{Op: "open", Lo: 2, Hi: 4})
+	g.ndb++
+	// the survivor (database 0, key groups 0..1) has taken earlier checkpoints
+	for i := 0; i < 1+g.r.Intn(3); i++ {
+		g.writesIn(0, 1+g.r.Intn(2), 0, 2)
+		id := g.ckpt(0)
+		g.add(opJ{Op: "drain", DB: 0})
+		_ = id
+	}
+	g.nextID++
+	x := g.nextID
+	g.ids = append(g.ids, x)
+	for db, rg := range [][2]int{{0, 2}, {2, 4}} {
+		g.writesIn(db, 1+g.r.Intn(3), rg[0], rg[1])
+		if g.r.Bool() {
+			g.add(opJ{Op: "put", DB: db, K: []int{0, rg[0], 121}, V: make([]int, 40)})
+			g.add(opJ{Op: "drain", DB: db})
+		}
+		g.add(opJ{Op: "ckpt", DB: db, ID: x})
+		g.add(opJ{Op: "drain", DB: db})
+	}
+	g.add(opJ{Op: "crash", DB: 0})
+	g.add(opJ{Op: "crash", DB: 1})
+	srcs := []int{0, 1}
+	g.add(opJ{Op: "restore", ID: x, Srcs: srcs, Same: true})
+	r := g.ndb
+	g.ndb++
+	var ys []uint64
+	for i := 0; i < 2+g.r.Intn(3); i++ {
+		g.writes(r, 1+g.r.Intn(2))
+		y := g.ckpt(r)
+		ys = append(ys, y)
+		g.add(opJ{Op: "drain", DB: r})
+	}
+	if g.r.Chance(1, 3) {
+		g.add(opJ{Op: "retain", DB: r, IDs: []uint64{ys[len(ys)-1]}})
+	}
+	g.add(opJ{Op: "crash", DB: r})
+	g.add(opJ{Op: "restore", ID: x, Srcs: srcs})
+	g.ndb++
+	g.restoreAll(hx.Pick(g.r, ys), false)
+}
+
 func (g *gen) writesIn(db, n, lo, hi int) {
 	for i := 0; i < n; i++ {
 		k := []int{0, lo + g.r.Intn(hi-lo), 97 + g.r.Intn(5)}
@@ -524,10 +647,11 @@ func (g *gen) scaleIn() {
 	g.ids = append(g.ids, id)
 	for db, rg := range ranges {
 		g.writesIn(db, 1+g.r.Intn(3), rg[0], rg[1])
-		if g.r.Bool() {
-			g.add(opJ{Op: "put", DB: db, K: []int{0, rg[0], 120}, V: make([]int, 40)})
+		// 0..3 flush rounds: with two or more the instance compacts into the base level before its checkpoint
+		for round := g.r.Intn(4); round > 0; round-- {
+			g.add(opJ{Op: "put", DB: db, K: []int{0, rg[0], 120 + round}, V: make([]int, 40)})
 			g.add(opJ{Op: "drain", DB: db})
-			g.writesIn(db, g.r.Intn(2), rg[0], rg[1])
+			g.writesIn(db, 1+g.r.Intn(2), rg[0], rg[1])
 		}
 		g.add(opJ{Op: "ckpt", DB: db, ID: id})
 		g.add(opJ{Op: "drain", DB: db})
@@ -598,9 +722,9 @@ func (eng) Generate(mode, tier string, r *hx.Rand) []*hx.Case {
 		g := &gen{r: r.Fork(), ndb: 1, kgs: 4}
 		params := map[string]any{"mode": mode, "mem": hx.Pick(g.r, []int{45, 60, 60, 90}), "wal": hx.Pick(g.r, []int{1000, 1000, 70}), "tfs": hx.Pick(g.r, []int{60, 80, 200})}
 		kind := ""
-		weights := []string{"random", "random", "parked", "parked", "samedir", "chain", "gc", "faults", "midcomp", "midcomp"}
+		weights := []string{"random", "random", "parked", "parked", "samedir", "chain", "gc", "faults", "midcomp", "midcomp", "delonly", "delonly", "scalein", "race", "inplace"}
 		if mode == "c09" {
-			weights = []string{"random", "gc", "gc", "chain", "samedir", "faults", "faults", "rescale", "rescale", "rescale", "scalein", "scalein"}
+			weights = []string{"random", "gc", "gc", "chain", "samedir", "faults", "faults", "rescale", "rescale", "rescale", "scalein", "scalein", "race", "race", "inplace", "inplace"}
 		}
 		switch kind = hx.Pick(g.r, weights); kind {
 		case "random":
@@ -621,6 +745,12 @@ func (eng) Generate(mode, tier string, r *hx.Rand) []*hx.Case {
 			g.midCompaction()
 		case "scalein":
 			g.scaleIn()
+		case "delonly":
+			g.deleteOnly()
+		case "race":
+			g.raceSave()
+		case "inplace":
+			g.scaleInPlace()
 		}
 		out = append(out, g.build(fmt.Sprintf("%s-%s-%d", mode, kind, i), params))
 	}
